@@ -150,6 +150,25 @@ def build(run):
         yield "as_vector of variable", lambda: _d(lambda s_: as_vector([s_ * s_, s_ * g])[i] * u[i], variable(f))
         yield "variable used at two components", lambda: _d(lambda w_: w_[0] * w_[1] + w_[1] ** 2, variable(u))
 
+        # several variables in ONE expansion pass (the dispatcher builds one VariableRuleset per variable)
+        def two(kind):
+            x_, y_ = variable(f), variable(g)
+            e_ = sin(x_) * y_ * y_ + x_ ** 3 * y_
+            if kind == "sum":
+                return diff(e_, x_) + 2 * diff(e_, y_)
+            if kind == "mixed second":
+                return diff(diff(e_, x_), y_)
+            if kind == "vector":
+                return as_vector([diff(e_, x_), diff(e_, y_)])[i] * u[i]
+            a_, b_ = variable(u), variable(2 * u)
+            h_ = (a_[i] * b_[i]) * a_[0]
+            return (diff(h_, a_) + 2 * diff(h_, b_))[j] * u[j]
+        yield "two scalar variables of the same shape, sum of diffs", lambda: two("sum")
+        yield "two scalar variables, mixed second derivative", lambda: two("mixed second")
+        yield "two scalar variables, vector of diffs", lambda: two("vector")
+        yield "two vector variables of the same shape", lambda: two("vectors")
+        yield "variable and coefficient of the same shape", lambda: (lambda x_: diff(x_ * x_ * g, x_) + diff(x_ * g * g, g))(variable(f))
+
     def _d(F, v):
         return diff(F(v), v)
 
